@@ -69,7 +69,8 @@ let history ns flags ops =
             (since /repo d350cd9) and it is executed a second time - visible only in the generation of a stored record.
             (After 0 bytes it runs once or twice, depending on whether the server had read the request before the connection
             was reset - NetProofs.transmit_any_schedule allows both; not generated before a store.) *)
-         | _, OStore _ when inj >= 1 -> nstep (snd (nstep !x (NOp o))) (NOp o)
+         (* the answer to a store is the bare 40 byte header: a failure point at or behind byte 40 is never reached *)
+         | _, OStore _ when inj >= 1 && inj < 40 -> nstep (snd (nstep !x (NOp o))) (NOp o)
          | _ -> nstep !x (NOp o)) in
       x := x1;
       let w1 = x1.nw in
